@@ -46,6 +46,13 @@ F('char_term__get_id', r'constexpr const char\* get_id\(\)', 'const char* char_t
 F('char_term__get_name', r'constexpr const char\* get_name\(\)', 'const char* char_term__get_name(const struct char_term* self)', [S(r'\bget_id\(\)', 'char_term__get_id(self)')], CT)
 F('char_term__get_char', r'constexpr char get_char\(\)', 'char char_term__get_char(const struct char_term* self)', [member('c')], CT)
 F('char_term__get_data', r'constexpr char get_data\(\)', 'char char_term__get_data(const struct char_term* self)', [member('c')], CT)
+# ---- the term functors of the built-in terms (C02: a term's value is its functor applied to its lexeme)
+F('utils__pass_sv', r'constexpr std::string_view pass_sv\(const std::string_view& sv\)', 'struct vx_sv utils__pass_sv(const struct vx_sv* sv)', [S(r'return sv;', 'return *sv;', name='R5:const& parameter')], between_ok=r'\s*')
+F('utils__first_sv_char', r'constexpr char first_sv_char\(const std::string_view& sv\)', 'char utils__first_sv_char(const struct vx_sv* sv)', [S(r'\bsv\[0\]', 'VX_SV_AT(*sv, 0)', name='R12:operator[]')], between_ok=r'\s*')
+GETF = S(r'return utils::(\w+);', r'return (vx_fn)utils__\1;', name='R5:reference to a function')
+F('char_term__get_ftor', r'constexpr const auto& get_ftor\(\)', 'vx_fn char_term__get_ftor(const struct char_term* self)', [GETF], CT)
+F('string_term__get_ftor', r'constexpr const auto& get_ftor\(\)', 'vx_fn string_term__get_ftor(const struct string_term* self)', [GETF], ST)
+F('regex_term__get_ftor', r'constexpr const auto& get_ftor\(\)', 'vx_fn regex_term__get_ftor(const struct regex_term* self)', [GETF], [r'class\s+regex_term\b(?!;)'])
 # ---- string_term<DataSize>
 F('string_term__ctor', r'constexpr string_term\(const char \(&str\)\[DataSize\], int precedence = 0, ' + ASSOC + r'\)',
   'void string_term__ctor(struct string_term* self, const char* str, int precedence, int a)',
@@ -84,6 +91,9 @@ static inline size_t vx_idx(size_t i, size_t n) { __CPROVER_assert(i < n, "VX_BO
 size_t P_DS, P_PS;                 /* ghost template parameters: string_term<DataSize>, regex_term<Pattern>::pattern_size = std::size(Pattern) (R9) */
 const char* P_Pattern;             /* the pattern array regex_term is instantiated with */
 size_t g_k;                        /* ghost-chosen index */
+struct vx_sv { const char* p; size_t n; };
+static inline char VX_SV_AT(struct vx_sv sv, size_t i) { __CPROVER_assert(i < sv.n, "VX_SV string_view subscript inside the view (the standard's precondition)"); return sv.p[i]; }
+typedef void (*vx_fn)(void);
 struct term { int precedence; int ass; };
 struct utils__char_names { char arr[256][VX_NAME_SIZE]; };
 struct utils__char_names utils__c_names;
